@@ -20,6 +20,8 @@
 (* ordered list of references to components built earlier (so the workflow *)
 (* is acyclic by construction; the document order fed to the code is the   *)
 (* build order or its reverse -- variable `order`).                        *)
+(* A component may reference the same producer several times (different    *)
+(* file, method or spelling), next to references to other producers.       *)
 (* A reference: producer (index), spelling in the `references` list        *)
 (* (relative `name:m` / absolute `stageS.name:m`), optional file path      *)
 (* inside the producer (`name/path:m`), method, and the style in which the *)
@@ -55,6 +57,7 @@ CONSTANTS Names,        \* set of strings: component names
           DocOrders,    \* subset of {"fwd","rev"}: order of the components in the document given to the code
           MaxComps,     \* number of components of a workflow: 1..MaxComps
           MaxRefs,      \* references per component
+          MaxSame,      \* references of one component to the SAME producer (they differ in file path, method or spelling)
           PrivChoices,  \* subset of 0..3: value v > 0 = the component defines rg, rs, rc = v (and ag = "v is odd") privately
           AggVarChoices,\* subset of BOOLEAN: TRUE = the aggregate flag is given through the variable `ag`
           StageVals0,   \* subset of 0..3: value v > 0 = the stage-0 scope defines rs = v (and ag = "v is odd")
@@ -125,7 +128,11 @@ AddRef(p, sp, pa, m, st) ==
     /\ phase = "build" /\ Len(comps) >= 2 /\ p < Len(comps)
     /\ LET c == Len(comps) IN
        /\ Len(comps[c].refs) < MaxRefs
-       /\ ~ \E k \in 1..Len(comps[c].refs) : comps[c].refs[k].p = p
+       \* several references to one producer are allowed as long as no two are written identically:
+       \* `a/energies.csv:ref` + `a/traj.xyz:copy`, `a:ref` + `a/out.txt:ref`, `a:ref` + `stage0.a:ref`
+       /\ Cardinality({k \in 1..Len(comps[c].refs) : comps[c].refs[k].p = p}) < MaxSame
+       /\ ~ \E k \in 1..Len(comps[c].refs) : /\ comps[c].refs[k].p = p /\ comps[c].refs[k].sp = sp
+                                              /\ comps[c].refs[k].path = pa /\ comps[c].refs[k].m = m
        /\ comps[p].stage <= comps[c].stage
        /\ sp = "rel" => comps[p].stage = comps[c].stage
        /\ comps' = [comps EXCEPT ![c].refs = Append(@, [p |-> p, sp |-> sp, path |-> pa, m |-> m, st |-> st])]
